@@ -42,6 +42,9 @@ class FrameItem(EFLRItem):
         self.index_min = NumericAttribute('index_min')
         self.index_max = NumericAttribute('index_max')
 
+        #: (attribute, part) pairs whose values were derived from the data when the file was (last) written
+        self._derived_from_data: list[tuple[Attribute, str]] = []
+
         super().__init__(name, parent=parent, **kwargs)
 
     @staticmethod
@@ -96,6 +99,12 @@ class FrameItem(EFLRItem):
             if getattr(attr, key) is None and value is not None:
                 logger.debug(f"Setting {attr.label}.{key} of {self} to {value}")
                 setattr(attr, key, value)
+                self._derived_from_data.append((attr, key))
+
+        # what was derived from the data at a previous write describes that data, not necessarily the current one
+        for derived_attr, derived_key in self._derived_from_data:
+            setattr(derived_attr, '_' + derived_key, None)
+        self._derived_from_data.clear()
 
         index_channel: ChannelItem = self.channels.value[0]
         index_data = data[index_channel.name][:]
